@@ -67,6 +67,8 @@ pub struct Case {
     /// (object path with the binding, source object path or None for `this`)
     pub dyn_refs: Vec<(Vec<usize>, Option<Vec<usize>>)>,
     pub duplicate: Option<(Vec<usize>, Vec<usize>)>,
+    /// (object path, index of the binding): a reference to an object of an incompatible class (must be rejected)
+    pub incompatible: Option<(Vec<usize>, usize)>,
 }
 
 fn gen_case(ch: &mut Chooser) -> Case {
@@ -103,7 +105,7 @@ fn gen_case(ch: &mut Chooser) -> Case {
             }
         }
     }
-    let mut case = Case { root, explicit: BTreeMap::new(), buddies: vec![], dyn_refs: vec![], duplicate: None };
+    let mut case = Case { root, explicit: BTreeMap::new(), buddies: vec![], dyn_refs: vec![], duplicate: None, incompatible: None };
     let flat: Vec<(Vec<usize>, String, Option<String>)> = case.root.flat().into_iter().map(|(p, o)| (p, o.class.clone(), o.id.clone())).collect();
     let widgets_with_id: Vec<&(Vec<usize>, String, Option<String>)> = flat.iter().filter(|(_, c, id)| kind_of(c) == Kind::Widget && id.is_some()).collect();
     // buddy references and dynamic bindings
@@ -148,6 +150,21 @@ fn gen_case(ch: &mut Chooser) -> Case {
         case.explicit.insert(w, list);
         ch.label("explicit-actions-list");
     }
+    // incompatible reference variant: the buddy of a label names an action, a layout or a spacer
+    // (declared objects, but not widgets), or an explicit actions list names a plain widget
+    if ch.chance(1, 10) {
+        let non_widgets: Vec<&(Vec<usize>, String, Option<String>)> = flat.iter().filter(|(p, c, id)| id.is_some() && !p.is_empty() && matches!(kind_of(c), Kind::Action | Kind::Layout)).collect();
+        let labels: Vec<&(Vec<usize>, String, Option<String>)> = flat.iter().filter(|(p, c, _)| meta().derives(c, "QLabel") && !case.root.at(p).binds.iter().any(|b| b.path == "buddy")).collect();
+        if !non_widgets.is_empty() && !labels.is_empty() {
+            let l = (*ch.pick(&labels)).0.clone();
+            let t = (*ch.pick(&non_widgets)).2.clone().unwrap();
+            let o = case.root.at_mut(&l);
+            o.binds.push(Bind::new("buddy", t));
+            case.incompatible = Some((l, o.binds.len() - 1));
+            ch.label("incompatible-buddy-reference");
+            return case;
+        }
+    }
     // duplicated id variant
     if ch.chance(1, 10) {
         let with_id: Vec<&(Vec<usize>, String, Option<String>)> = flat.iter().filter(|(_, _, id)| id.is_some()).collect();
@@ -183,6 +200,16 @@ fn run_case(ch: &mut Chooser) -> Outcome {
     let fail = |k: &str, why: String| Outcome::fail(format!("c10-{k}"), why.clone(), detail(&why));
     if let Some(p) = &t.panic {
         return fail("panic", format!("translator panicked: {p}"));
+    }
+    if let Some((obj, bind)) = &case.incompatible {
+        if t.accepted() {
+            return fail("incompatible-reference-accepted", format!("`{}` names an object that is not a widget, yet the document is accepted", case.root.at(obj).binds[*bind].value));
+        }
+        let span = &printed.bind_spans[&(obj.clone(), *bind)];
+        if !t.errors().any(|d| span.start <= d.start && d.end <= span.end) {
+            return fail("incompatible-reference-diagnostic", format!("no error inside the reference binding (span {:?}); diagnostics {:?}", span, t.diag_summary()));
+        }
+        return Outcome::pass(Some(stable_hash(&case.root)));
     }
     if let Some((_first, second)) = &case.duplicate {
         if t.accepted() {
@@ -369,7 +396,7 @@ pub fn run(env: &Env, known: &Known, started: Instant, replayed: u64, replay_vio
     let rr = run_choices(&cfg, run_case);
     let ev = Evidence {
         env, pid: PID, level: "exploration",
-        rule: "object trees of 1-40 objects; half of the objects get an id drawn from the generated-name space of the classes present (stem, stem1, stem2, ... for several stemming rules) or from unrelated words; leaf classes are swapped for look-alikes (Label1, QLabel1, KLabel, Label, Widget2, Q3D, QAction1); buddy references, explicit actions lists, dynamic bindings that read another object by id or `this` on anonymous objects; a duplicated-id variant. Oracle: validity predicate over the decoded .ui (names pairwise distinct; id = name; generated names avoid ids and start with the class stem; addaction/buddy resolve to exactly one object of the right kind) and over the header (every ui_-> token names a declared non-root object; setter/getter/connect of each dynamic binding use exactly the model's objects; function and BindingIndex names unique); duplicate id => rejected with an error on the second id. Non-trivial = >=2 anonymous objects share a class and >=1 id lies in the generated-name space; distinct by tree hash.",
+        rule: "object trees of 1-40 objects; half of the objects get an id drawn from the generated-name space of the classes present (stem, stem1, stem2, ... for several stemming rules) or from unrelated words; leaf classes are swapped for look-alikes (Label1, QLabel1, KLabel, Label, Widget2, Q3D, QAction1); buddy references, explicit actions lists, dynamic bindings that read another object by id or `this` on anonymous objects; a duplicated-id variant; a variant in which a label's buddy names an action or layout (must be rejected inside the binding). Oracle: validity predicate over the decoded .ui (names pairwise distinct; id = name; generated names avoid ids and start with the class stem; addaction/buddy resolve to exactly one object of the right kind) and over the header (every ui_-> token names a declared non-root object; setter/getter/connect of each dynamic binding use exactly the model's objects; function and BindingIndex names unique); duplicate id => rejected with an error on the second id. Non-trivial = >=2 anonymous objects share a class and >=1 id lies in the generated-name space; distinct by tree hash.",
         assumptions: vec!["'derived from their class' is read loosely: lower-cased name starts with the lower-cased class name with or without its leading Q/K".into()],
         extra: json!({}),
     };
